@@ -32,8 +32,8 @@ RULE = (
     "full Cartesian product spectrum (1D: 2 grids x 6 shapes; 2D: every single-direction-bin spectrum of the "
     "N=8 and N=12 grids (thorough: and of an offset N=5 grid) x 2 frequency shapes) x sampling rate "
     "{0.5,1,2.5,10} (thorough: +1.28) x signal length {8,9,16,17,100,101,1000} (thorough: +19999,20000) x component "
-    "{z,w,x,y,u,v} x seed {0,1,2**32-1}; every member is generated twice with the same seed and once per scale "
-    "factor c (quick {0.3}; thorough {4,0.3,2.5e-3}). A member is non-trivial when the reference variance of that "
+    "{z,w,x,y,u,v} x seed {0,1,2**32-1} (thorough: +2**31-1); every member is generated twice with the same seed and once per scale "
+    "factor c (quick {0.3}; thorough {4,0.3}). A member is non-trivial when the reference variance of that "
     "component is > 0 (resampled spectrum has energy at some k>=1 and the component's direction factor is not "
     "zero); distinct = distinct (spectrum, fs, nfft, component, seed) - an odd length and the even length below "
     "it are the same case."
@@ -56,6 +56,7 @@ REQUIRED_CATEGORIES = [
 ]
 
 SEEDS = [0, 1, 2 ** 32 - 1]
+SEEDS_THOROUGH = [0, 1, 2 ** 31 - 1, 2 ** 32 - 1]  # 2**31-1: a seed truncated to 31 bits collides with 2**32-1
 COMPONENTS = ["z", "w", "x", "y", "u", "v"]
 
 GRID_A = np.linspace(0.0, 1.0, 21)  # contains f = 0
@@ -104,7 +105,7 @@ def axes(tier):
     if tier == "thorough":
         fs = fs + [1.28]
         ln = ln + [19999, 20000]
-        sc = [4.0, 0.3, 2.5e-3]
+        sc = [4.0, 0.3]
     return fs, ln, sc
 
 
@@ -130,11 +131,11 @@ def units(tier):
 # ------------------------------------------------------------------------------------------
 # reference model (no library import)
 # ------------------------------------------------------------------------------------------
-def resample(fgrid, e, fs, nfft):
-    """Variance density on k*fs/nfft, k=0..nfft/2-1: (f_k, lower, upper); lower/upper differ only
-    where a target frequency coincides (to 1e-12) with the first/last grid node."""
+def resample(fgrid, e, fs, nfft, nbins=None):
+    """Variance density on k*fs/nfft, k=0..nbins-1 (default nfft/2): (f_k, lower, upper); lower/upper
+    differ only where a target frequency coincides (to 1e-12) with the first/last grid node."""
     df = fs / nfft
-    fr = np.arange(nfft // 2) * df
+    fr = np.arange(nfft // 2 if nbins is None else nbins) * df
     mid = np.interp(fr, fgrid, e, left=0.0, right=0.0)
     lo = mid.copy()
     hi = mid.copy()
@@ -149,11 +150,13 @@ def resample(fgrid, e, fs, nfft):
     return fr, lo, hi, amb
 
 
-def reference(fgrid, e, fs, n, dtheta, theta_deg):
-    """Reference variances for the six components; theta_deg None for a 1D spectrum."""
-    nfft = 2 * (n // 2)
+def reference(fgrid, e, fs, n, dtheta, theta_deg, nfft=None, nbins=None):
+    """Reference variances for the six components; theta_deg None for a 1D spectrum.  By default for
+    the stated construction (nfft = 2*floor(n/2) samples, harmonics k < nfft/2)."""
+    if nfft is None:
+        nfft = 2 * (n // 2)
     df = fs / nfft
-    fr, lo, hi, amb = resample(fgrid, e, fs, nfft)
+    fr, lo, hi, amb = resample(fgrid, e, fs, nfft, nbins)
     om2 = (2.0 * math.pi * fr) ** 2
     area = df * dtheta
     vz = (float(np.sum(lo[1:]) * area), float(np.sum(hi[1:]) * area))
@@ -219,6 +222,7 @@ def run_unit(unit):
     tier = unit["tier"]
     _, lengths, scales = axes(tier)
     fs = unit["fs"]
+    seeds = SEEDS_THOROUGH if tier == "thorough" else SEEDS
 
     def gen(key, comp, n, spec, seed):
         try:
@@ -241,7 +245,7 @@ def run_unit(unit):
             var = {}
             for comp in COMPONENTS:
                 series = {}
-                for seed in SEEDS:
+                for seed in seeds:
                     key = dict(skey, fs=fs, n=n, component=comp, seed=seed)
                     c.evaluations += 1
                     c.case(key)
@@ -263,11 +267,12 @@ def run_unit(unit):
                         c.violation(dict(key, check="length"),
                                     f"series has {len(z)} samples; requested {n} (even truncation {nfft})")
                         continue
+                    alts = [ref]
                     if len(z) != nfft:
-                        # an implementation that honours odd lengths: the orthogonality argument behind
-                        # the variance identity is made for the nfft-point grid only -> not compared
-                        c.cat("odd_full_length_not_compared")
-                        continue
+                        # an implementation that honours odd lengths: the identity holds for any set of
+                        # harmonics of the n-point grid, with or without the highest one
+                        c.cat("odd_full_length")
+                        alts = [reference(fgrid, e, fs, n, dtheta, theta, nfft=n, nbins=nb_) for nb_ in ((n - 1) // 2, (n + 1) // 2)]
                     if not np.all(np.isfinite(z)):
                         c.violation(dict(key, check="finite"), "series contains non-finite samples")
                         continue
@@ -284,17 +289,23 @@ def run_unit(unit):
                     # ---- variance -----------------------------------------------------------
                     v = popvar(z)
                     var[(comp, seed)] = v
+                    var[("alts", seed)] = alts
                     amax = float(np.max(np.abs(z)))
                     if is2d or comp in ("z", "w"):
-                        lo, hi = ref[comp]
-                        vtot = ref["z"][1] if comp in ("z", "x", "y") else ref["w"][1]
-                        tol = 1e-10 * hi + 1e-13 * vtot + 1e-12 * ref["m0sq"]
-                        if not (lo - tol <= v <= hi + tol):
+                        ok_any = False
+                        for ra in alts:
+                            lo, hi = ra[comp]
+                            vtot = ra["z"][1] if comp in ("z", "x", "y") else ra["w"][1]
+                            tol = 1e-10 * hi + 1e-13 * vtot + 1e-12 * ra["m0sq"]
+                            ok_any = ok_any or (lo - tol <= v <= hi + tol)
+                        lo, hi = alts[0][comp]
+                        vtot = alts[0]["z"][1] if comp in ("z", "x", "y") else alts[0]["w"][1]
+                        if not ok_any:
                             c.violation(
                                 dict(key, check="variance"),
                                 f"var({comp})={v!r}, spectral variance of the resampled spectrum {lo!r}"
                                 + ("" if lo == hi else f"..{hi!r}") + f" (ratio {v / hi if hi else float('nan'):.12g})",
-                                variance=v, reference=[lo, hi], nfft=nfft, df=ref["df"], theta=theta,
+                                variance=v, reference=[lo, hi], nfft=len(z), df=alts[0]["df"], theta=theta,
                             )
                         nontrivial = lo > 1e-13 * vtot and lo > 0
                     else:
@@ -325,9 +336,9 @@ def run_unit(unit):
                 if not is2d and comp in ("x", "y", "u", "v"):
                     expected_signal = False  # which of the pair carries the signal is not stated for 1D
                 if expected_signal:
-                    for a in range(len(SEEDS)):
-                        for b in range(a + 1, len(SEEDS)):
-                            sa, sb = SEEDS[a], SEEDS[b]
+                    for a in range(len(seeds)):
+                        for b in range(a + 1, len(seeds)):
+                            sa, sb = seeds[a], seeds[b]
                             if sa in series and sb in series:
                                 c.cat("seed_pairs_compared")
                                 if np.array_equal(series[sa], series[sb]):
@@ -335,13 +346,17 @@ def run_unit(unit):
                                                 f"seeds {sa} and {sb} give the identical series")
             # ---- 1D: horizontal pairs carry the elevation / velocity variance between them ----
             if not is2d:
-                for seed in SEEDS:
+                for seed in seeds:
                     for pa, pb, tot in (("x", "y", "z"), ("u", "v", "w")):
                         if (pa, seed) in var and (pb, seed) in var:
-                            lo, hi = ref[tot]
                             s = var[(pa, seed)] + var[(pb, seed)]
-                            tol = 1e-10 * hi + 1e-12 * ref["m0sq"]
-                            if not (lo - tol <= s <= hi + tol):
+                            ok_any = False
+                            for ra in var[("alts", seed)]:
+                                lo, hi = ra[tot]
+                                tol = 1e-10 * hi + 1e-12 * ra["m0sq"]
+                                ok_any = ok_any or (lo - tol <= s <= hi + tol)
+                            lo, hi = var[("alts", seed)][0][tot]
+                            if not ok_any:
                                 c.violation(dict(skey, fs=fs, n=n, component=pa + "+" + pb, seed=seed, check="variance"),
                                             f"var({pa})+var({pb})={s!r} but the spectral variance is {lo!r}..{hi!r}",
                                             reference=[lo, hi], nfft=nfft)
